@@ -357,6 +357,9 @@ class BPTC19696:
             is_reserved,
             is_hamming,
         ) in BPTC19696.INTERLEAVING_INDICES.items():
+            if data_index == 0:
+                # R(3) has no place in the table (row 0), keep it as received
+                continue
             bits[data_index if deinterleaved else interleave_index] = table[row - 1][
                 column
             ]
